@@ -5,7 +5,7 @@
     regenerated from the Python source into TM.Gen.Tables on every run; each group starts
     with a computational check of the generated tables. *)
 From Coq Require Import ZArith List Bool.
-From TM Require Import Codec.BaseN Codec.BaseNP Codec.Dec Codec.Event Codec.EventP Gen.Tables Codec.C15Run.
+From TM Require Import Codec.BaseN Codec.BaseNP Codec.Dec Codec.Event Codec.EventP Codec.Rule Codec.RuleP Gen.Tables Codec.C15Run.
 Import ListNotations.
 Open Scope Z_scope.
 
@@ -234,3 +234,51 @@ Example C15_event_nonvacuous :
      = Some (tt, ServiceExited (Some [117]) (Some [97; 46; 46; 98]) (-255) 0)
   /\ node_fields c15_node_tables [97; 44; 98; 44; 99; 44; 100; 44; 101; 44; 102] = None.
 Proof. vm_compute. repeat split. Qed.
+
+(** * 3. Firewall rules as rule-file names: rulefile.py RuleMgr._filenameify / get_rule *)
+
+(** the three generated filename patterns are the expected ones and each generated regex text is exactly
+    '^' + pattern.format(<group regex of the field's class>) + '$';  _ANY = '*', ANY_PORT = 0 *)
+Theorem C15_rule_tables_ok : rule_tables_ok c15_rule_tables = true.
+Proof. vm_compute. reflexivity. Qed.
+Print Assumptions C15_rule_tables_ok.
+
+(** for every chain \w{2,32} and every rule in [rule_domain] (proto tcp|udp; src/dst address the ANY_IP
+    object or a dotted quad of 1-3 digit octets; ports 0..99999 with 0 = wildcard; new address a dotted
+    quad; DNAT, SNAT and PassThrough): the file name is produced and reads back as the same chain and rule *)
+Theorem C15_rule_roundtrip : forall chain r,
+  valid KChain chain = true -> rule_domain r = true ->
+  exists name, filenameify c15_rule_tables chain r = Some name
+               /\ get_rule c15_rule_tables name = Some (chain, r).
+Proof. intros chain r Hc Hd. exact (rule_roundtrip c15_rule_tables chain r C15_rule_tables_ok Hc Hd). Qed.
+Print Assumptions C15_rule_roundtrip.
+
+(** distinct (chain, rule) never share a file name *)
+Theorem C15_rule_injective : forall chain r chain' r' name,
+  valid KChain chain = true -> rule_domain r = true ->
+  valid KChain chain' = true -> rule_domain r' = true ->
+  filenameify c15_rule_tables chain r = Some name -> filenameify c15_rule_tables chain' r' = Some name ->
+  (chain, r) = (chain', r').
+Proof.
+  intros chain r chain' r' name H1 H2 H3 H4 H5 H6.
+  exact (rule_injective c15_rule_tables chain r chain' r' name C15_rule_tables_ok H1 H2 H3 H4 H5 H6).
+Qed.
+Print Assumptions C15_rule_injective.
+
+(** non-vacuity: wildcard and concrete DNAT / SNAT / PassThrough rules in the domain with their file names;
+    the domain is needed (proto icmp does not read back); the decoder also accepts one trailing newline *)
+Definition ex_chain : str := [80; 82; 69; 82; 79; 85; 84; 73; 78; 71; 95; 68; 78; 65; 84].
+Definition ex_ip1 : str := [49; 48; 46; 48; 46; 48; 46; 49].
+Definition ex_ip2 : str := [49; 57; 50; 46; 49; 54; 56; 46; 49; 46; 50; 48].
+Example C15_rule_nonvacuous :
+  valid KChain ex_chain = true
+  /\ forallb rule_domain [DNAT s_tcp None 0 (Some ex_ip1) 8080 ex_ip2 80; SNAT s_udp (Some ex_ip2) 99999 None 0 ex_ip1 0;
+                         PassThrough ex_ip1 ex_ip2] = true
+  /\ filenameify c15_rule_tables ex_chain (DNAT s_tcp None 0 (Some ex_ip1) 8080 ex_ip2 80)
+     = Some [80; 82; 69; 82; 79; 85; 84; 73; 78; 71; 95; 68; 78; 65; 84; 58; 100; 110; 97; 116; 58; 116; 99; 112; 58; 42; 58; 42; 58; 49; 48; 46; 48; 46; 48; 46; 49; 58; 56; 48; 56; 48; 45; 49; 57; 50; 46; 49; 54; 56; 46; 49; 46; 50; 48; 58; 56; 48]
+  /\ get_rule c15_rule_tables [80; 82; 69; 82; 79; 85; 84; 73; 78; 71; 95; 68; 78; 65; 84; 58; 115; 110; 97; 116; 58; 117; 100; 112; 58; 49; 57; 50; 46; 49; 54; 56; 46; 49; 46; 50; 48; 58; 57; 57; 57; 57; 57; 58; 42; 58; 42; 45; 49; 48; 46; 48; 46; 48; 46; 49; 58; 48]
+     = Some (ex_chain, SNAT s_udp (Some ex_ip2) 99999 None 0 ex_ip1 0)
+  /\ (exists name, filenameify c15_rule_tables ex_chain (DNAT [105; 99; 109; 112] None 0 None 0 ex_ip2 80) = Some name
+                   /\ get_rule c15_rule_tables name = None)
+  /\ get_rule c15_rule_tables [80; 82; 69; 82; 79; 85; 84; 73; 78; 71; 95; 68; 78; 65; 84; 58; 112; 97; 115; 115; 116; 104; 114; 111; 117; 103; 104; 58; 49; 48; 46; 48; 46; 48; 46; 49; 45; 49; 57; 50; 46; 49; 54; 56; 46; 49; 46; 50; 48; 10] = Some (ex_chain, PassThrough ex_ip1 ex_ip2).
+Proof. vm_compute. repeat split. eexists. split; reflexivity. Qed.
